@@ -166,6 +166,108 @@ Fixpoint trace_is (tr : list (pt * cell)) (want : list (pt * element)) : bool :=
 Definition fail_if (b : bool) (code : N) (idx : N) (l : list (N * N)) : list (N * N) :=
   if b then (idx, code) :: l else l.
 
+(* the terminal after the observation: it interprets the bytes written; on a
+   size change it adopts the new size and some cursor position *)
+Definition v_after (cfg : vtcfg) (adopt : pt -> pt -> pt) (v : vt) (o : obs) : vt :=
+  match o_op o with
+  | OTerm (SetSize sz) => vt_resize v sz (adopt (vcur v) sz)
+  | _ => vt_bytes cfg v (o_bytes o)
+  end.
+
+Definition no_bytes (bs : list byte) : bool := match bs with [] => true | _ => false end.
+
+Definition bad_101 (v' : vt) : bool :=
+  malformed v' || unknown v' || negb (match lex v' with Ground => true | _ => false end).
+
+Definition bad_102 (tr : list (pt * cell)) (op : op) : bool :=
+  match op_elements op with
+  | Some es => negb (cells_match tr (visible es))
+  | None => false
+  end.
+
+Definition bad_1701 (tr : list (pt * cell)) (op : op) : bool :=
+  match op_elements op with
+  | Some es => negb (bytes_eqb (flat_map (fun pc => c_bytes (snd pc)) tr) (to_string (visible es)))
+  | None => false
+  end.
+
+Definition bad_103 (tr : list (pt * cell)) (op : op) : bool :=
+  match op_elements op with
+  | Some _ => false
+  | None => negb (match tr with [] => true | _ => false end)
+  end.
+
+(* a write containing a control character moves the cursor in its own way: no
+   placement expectation through or after it *)
+Definition has_ctl (op : op) : bool :=
+  match op_elements op with
+  | Some es => existsb (fun e => is_control_glyph (eg e)) es
+  | None => false
+  end.
+
+Definition pos_result (w : N) (expect : option pt) (tr : list (pt * cell)) (op : op)
+  : bool * option pt :=
+  if has_ctl op then (true, None) else positions_ok w expect tr.
+
+Definition next_expect (op : op) (sz : pt) (e : option pt) : option pt :=
+  match op with
+  | Move p => if inside p sz then Some p else None
+  | Restore => None
+  | SetSize _ => None
+  | _ => e
+  end.
+
+Definition bad_901 (v v' : vt) (op : op) : bool :=
+  match op with
+  | Erase k =>
+      let c := vcur v in
+      negb (forallb (fun p =>
+              if erase_region_of k c p
+              then cell_eqb (cells v' p) (blank_cell default_rend)
+              else cell_eqb (cells v' p) (cells v p)) (grid_points (vsize v))
+            && pt_eqb (vcur v') (vcur v) && Bool.eqb (pending v') (pending v)
+            && rend_eqb (rend v') default_rend)
+  | _ => false
+  end.
+
+Definition bad_1101 (beh : behaviour) (v v' : vt) (bytes : list byte) (op : op) : bool :=
+  match op with
+  | Show => negb (vis v')
+  | Hide => vis v'
+  | MouseOn =>
+      negb (match mouse_mode beh with
+            | Some 1000 => m1000 v' && Bool.eqb (m1003 v') (m1003 v)
+            | Some _ => m1003 v' && Bool.eqb (m1000 v') (m1000 v)
+            | None => no_bytes bytes
+            end)
+  | MouseOff =>
+      negb (match mouse_mode beh with
+            | Some 1000 => negb (m1000 v') && Bool.eqb (m1003 v') (m1003 v)
+            | Some _ => negb (m1003 v') && Bool.eqb (m1000 v') (m1000 v)
+            | None => no_bytes bytes
+            end)
+  | BufNormal => altbuf v'
+  | BufAlt => negb (altbuf v')
+  | Title t =>
+      negb (if b_title_bel beh || b_title_st beh then bytes_eqb (title v') t else no_bytes bytes)
+  | _ => false
+  end.
+
+(* C13: nothing re-sent for what the (proved) belief says is in effect *)
+Definition bad_1301 (model : tstate) (bytes : list byte) (op : op) : bool :=
+  match op with
+  | WElem e | WRaw e =>
+      match ts_last model with
+      | Some l => attr_eqb (ea l) (ea e) && cs_eqb (gcs (eg l)) (gcs (eg e)) &&
+                  negb (bytes_eqb bytes (wire (eg e)))
+      | None => false
+      end
+  | Move p => opt_eqb pt_eqb (ts_cur model) (Some p) && negb (no_bytes bytes)
+  | Show => opt_eqb Bool.eqb (ts_vis model) (Some true) && negb (no_bytes bytes)
+  | Hide => opt_eqb Bool.eqb (ts_vis model) (Some false) && negb (no_bytes bytes)
+  | _ => false
+  end.
+
 (* clause codes: 101 ill-formed/unknown control function or lexer not at
    rest; 102 glyphs shown differ from the elements requested; 103 glyphs
    shown by an operation that writes none; 201 glyph not at the requested
@@ -180,97 +282,23 @@ Definition oracle_step (cfg : vtcfg) (beh : behaviour) (adopt : pt -> pt -> pt)
            (check_text : bool) (s : ostate) (o : obs) : ostate :=
   let v := os_vt s in
   let i := os_idx s in
-  let v' := match o_op o with
-            | OTerm (SetSize sz) => vt_resize v sz (adopt (vcur v) sz)
-            | _ => vt_bytes cfg v (o_bytes o)
-            end in
+  let v' := v_after cfg adopt v o in
   let tr := new_trace v v' in
   let f := os_fail s in
-  let f := fail_if (malformed v' || unknown v' ||
-                    negb (match lex v' with Ground => true | _ => false end)) 101 i f in
+  let f := fail_if (bad_101 v') 101 i f in
   let f := fail_if (negb (truthful beh (o_st o) v')) 801 i f in
   match o_op o with
   | OTerm op =>
-      let f :=
-        match op_elements op with
-        | Some es =>
-            let f := fail_if (check_text && negb (cells_match tr (visible es))) 102 i f in
-            let f := fail_if (check_text &&
-                              negb (bytes_eqb (flat_map (fun pc => c_bytes (snd pc)) tr)
-                                              (to_string (visible es)))) 1701 i f in
-            f
-        | None => fail_if (negb (match tr with [] => true | _ => false end)) 103 i f
-        end in
-      (* a write containing a control character moves the cursor in its own
-         way: no placement expectation through or after it *)
-      let has_ctl := match op_elements op with
-                     | Some es => existsb (fun e => is_control_glyph (eg e)) es
-                     | None => false
-                     end in
-      let '(pos_ok, expect') :=
-        if has_ctl then (true, None) else positions_ok (fst (vsize v')) (os_expect s) tr in
-      let f := fail_if (negb pos_ok) 201 i f in
-      let expect'' :=
-        match op with
-        | Move p => if inside p (vsize v') then Some p else None
-        | Restore => None
-        | SetSize _ => None
-        | _ => expect'
-        end in
-      let f :=
-        match op with
-        | Erase k =>
-            let c := vcur v in
-            fail_if (negb (forallb (fun p =>
-                        if erase_region_of k c p
-                        then cell_eqb (cells v' p) (blank_cell default_rend)
-                        else cell_eqb (cells v' p) (cells v p)) (grid_points (vsize v))
-                      && pt_eqb (vcur v') (vcur v) && Bool.eqb (pending v') (pending v)
-                      && rend_eqb (rend v') default_rend)) 901 i f
-        | Show => fail_if (negb (vis v')) 1101 i f
-        | Hide => fail_if (vis v') 1101 i f
-        | MouseOn =>
-            fail_if (negb (match mouse_mode beh with
-                           | Some 1000 => m1000 v' && Bool.eqb (m1003 v') (m1003 v)
-                           | Some _ => m1003 v' && Bool.eqb (m1000 v') (m1000 v)
-                           | None => match o_bytes o with [] => true | _ => false end
-                           end)) 1101 i f
-        | MouseOff =>
-            fail_if (negb (match mouse_mode beh with
-                           | Some 1000 => negb (m1000 v') && Bool.eqb (m1003 v') (m1003 v)
-                           | Some _ => negb (m1003 v') && Bool.eqb (m1000 v') (m1000 v)
-                           | None => match o_bytes o with [] => true | _ => false end
-                           end)) 1101 i f
-        | BufNormal => fail_if (altbuf v') 1101 i f
-        | BufAlt => fail_if (negb (altbuf v')) 1101 i f
-        | Title t =>
-            fail_if (negb (if b_title_bel beh || b_title_st beh
-                           then bytes_eqb (title v') t
-                           else match o_bytes o with [] => true | _ => false end)) 1101 i f
-        | _ => f
-        end in
-      (* C13: nothing re-sent *)
-      let f :=
-        match op with
-        | WElem e | WRaw e =>
-            match ts_last (os_model s) with
-            | Some l =>
-                fail_if (attr_eqb (ea l) (ea e) && cs_eqb (gcs (eg l)) (gcs (eg e)) &&
-                         negb (bytes_eqb (o_bytes o) (wire (eg e)))) 1301 i f
-            | None => f
-            end
-        | Move p =>
-            fail_if (opt_eqb pt_eqb (ts_cur (os_model s)) (Some p) &&
-                     negb (match o_bytes o with [] => true | _ => false end)) 1301 i f
-        | Show =>
-            fail_if (opt_eqb Bool.eqb (ts_vis (os_model s)) (Some true) &&
-                     negb (match o_bytes o with [] => true | _ => false end)) 1301 i f
-        | Hide =>
-            fail_if (opt_eqb Bool.eqb (ts_vis (os_model s)) (Some false) &&
-                     negb (match o_bytes o with [] => true | _ => false end)) 1301 i f
-        | _ => f
-        end in
-      mkO v' (o_st o) (fst (step beh (os_model s) op)) expect'' (os_frame s) (i + 1) f
+      let f := fail_if (check_text && bad_102 tr op) 102 i f in
+      let f := fail_if (check_text && bad_1701 tr op) 1701 i f in
+      let f := fail_if (bad_103 tr op) 103 i f in
+      let pr := pos_result (fst (vsize v')) (os_expect s) tr op in
+      let f := fail_if (negb (fst pr)) 201 i f in
+      let f := fail_if (bad_901 v v' op) 901 i f in
+      let f := fail_if (bad_1101 beh v v' (o_bytes o) op) 1101 i f in
+      let f := fail_if (bad_1301 (os_model s) (o_bytes o) op) 1301 i f in
+      mkO v' (o_st o) (fst (step beh (os_model s) op))
+          (next_expect op (vsize v') (snd pr)) (os_frame s) (i + 1) f
   | ODraw c =>
       let same_size := (cw c =? cw (os_frame s)) && (ch c =? ch (os_frame s)) in
       let prev := if same_size then os_frame s else blank_canvas (cw c) (ch c) in
@@ -286,8 +314,8 @@ Definition oracle_step (cfg : vtcfg) (beh : behaviour) (adopt : pt -> pt -> pt)
                         negb (forallb (fun pe => cell_eqb (cells v' (fst pe)) (display_of (snd pe)))
                                       (region_visit c 0 0 (cw c) (ch c)))) 301 i f in
       let f := fail_if (check_text && sized && negb (trace_is tr (changed_cells prev c))) 401 i f in
-      let f := fail_if (same_size && list_eqb element_eqb (grid c) (grid (os_frame s)) &&
-                        negb (match o_bytes o with [] => true | _ => false end)) 401 i f in
+      let f := fail_if (same_size && list_eqb element_eqb (grid (os_frame s)) (grid c) &&
+                        negb (no_bytes (o_bytes o))) 401 i f in
       mkO v' (o_st o) (fst (run beh (os_model s) (draw_ops (mkScreen (os_frame s)) c))) None c (i + 1) f
   end.
 
